@@ -19,6 +19,7 @@ pub mod c18;
 pub mod c03;
 pub mod c11;
 pub mod c07;
+pub mod c08;
 
 /// All harness bodies, for the native replayer.
 pub fn registry() -> Vec<(&'static str, fn())> {
@@ -35,5 +36,6 @@ pub fn registry() -> Vec<(&'static str, fn())> {
     v.extend_from_slice(c03::HARNESSES);
     v.extend_from_slice(c11::HARNESSES);
     v.extend_from_slice(c07::HARNESSES);
+    v.extend_from_slice(c08::HARNESSES);
     v
 }
